@@ -525,12 +525,33 @@ impl Printer {
                     self.ln(indent, text);
                 }
                 Node::BadSelector { tag } => {
+                    // the text that fails to parse comes out of interpolation and is lexed again
+                    // against the span of the source; in three of four forms the resolved text is
+                    // non-ASCII and has more bytes (but not more characters) than that span, or
+                    // sits in a query rather than a selector
+                    let head = match tag % 4 {
+                        0 => ".bad-#{\"[[\"}".to_string(),
+                        1 => ".b#{$_n}%".to_string(),
+                        2 => ".b#{$_n}, .c#{$_n} >> [".to_string(),
+                        _ => "@media #{$_n} and #{$_n}".to_string(),
+                    };
+                    if tag % 4 != 0 {
+                        self.stmt(indent, "$_n: \"éééééé\"");
+                    }
                     self.lines.insert(*tag, self.line + 1);
+                    let media = tag % 4 == 3;
                     if self.sass {
-                        self.ln(indent, ".bad-#{\"[[\"}");
-                        self.ln(indent + 1, "x: y");
+                        self.ln(indent, &head);
+                        if media {
+                            self.ln(indent + 1, ".m");
+                            self.ln(indent + 2, "x: y");
+                        } else {
+                            self.ln(indent + 1, "x: y");
+                        }
+                    } else if media {
+                        self.ln(indent, &format!("{} {{ .m {{ x: y; }} }}", head));
                     } else {
-                        self.ln(indent, ".bad-#{\"[[\"} { x: y; }");
+                        self.ln(indent, &format!("{} {{ x: y; }}", head));
                     }
                 }
                 Node::IncludeForeign { file, mixin, arg, content } => {
@@ -1511,7 +1532,7 @@ impl Engine for LoggerEngine {
                 for ev in r0.fs.iter().filter(|e| e.op == FsOp::Read).skip(1) {
                     if rng.chance(0.6) {
                         let mut j = sc.job.clone();
-                        j.faults = vec![Fault::ReadErr { at: ev.k, kind: *rng.pick(&[IoKind::NotFound, IoKind::PermissionDenied, IoKind::Interrupted, IoKind::Other]) }];
+                        j.faults = vec![Fault::ReadErr { at: ev.k, kind: *rng.pick(&[IoKind::NotFound, IoKind::PermissionDenied, IoKind::Interrupted, IoKind::Other, IoKind::LongTextA, IoKind::EmptyText, IoKind::MultiLineText]) }];
                         go(&j, &sc.expected, &sc.error, "prefix", &mut res, false);
                     }
                 }
